@@ -40,7 +40,7 @@ type effEvent struct {
 
 type effSummary struct {
 	writes  map[int][]effEvent
-	gwrites []effEvent // writes on GLOBAL objects
+	gwrites []effEvent      // writes on GLOBAL objects
 	ret     map[string]bool // fresh, nil, param:i, fresh-containing-param:i, global
 	unknown []string
 }
